@@ -217,18 +217,23 @@ func (d *Document) GetPageSettings() *PageSettings {
 		width := twipsToMM(parseFloat(sectPr.PageSize.W))
 		height := twipsToMM(parseFloat(sectPr.PageSize.H))
 
-		// 判断是否为预定义尺寸
-		settings.Size = identifyPageSize(width, height)
-		if settings.Size == PageSizeCustom {
-			settings.CustomWidth = width
-			settings.CustomHeight = height
-		}
-
 		// 设置方向
 		if sectPr.PageSize.Orient == string(OrientationLandscape) {
 			settings.Orientation = OrientationLandscape
 		} else {
 			settings.Orientation = OrientationPortrait
+		}
+
+		// 判断是否为预定义尺寸
+		settings.Size = identifyPageSize(width, height)
+		if settings.Size == PageSizeCustom {
+			// 自定义尺寸以纵向为基准：横向时 w:pgSz 中的宽高已经交换过，
+			// 这里换回来，使读到的设置再次写入时不会再交换一次
+			if settings.Orientation == OrientationLandscape {
+				width, height = height, width
+			}
+			settings.CustomWidth = width
+			settings.CustomHeight = height
 		}
 	}
 
